@@ -13,13 +13,13 @@ impl Prop for P {
         "C34"
     }
     fn rule(&self) -> &'static str {
-        "episodes on the real Daser worker (Daser::start -> Worker::run) with concurrency limit 0..6 and head allowance 0..5 over a chain of 3..N real headers (widths mostly 2, some 1..64; a prefix of the chain two sampling windows old): random store inserts (append, new head after a gap, fills, invalid ones), pruner commands (want_to_prune incl. height 0, highest-prunable and backlog reports around 512), granted and rogue removals, reconnections, and network answers (success / timeout) to arbitrary pending requests in arbitrary order; the result line is the worker's complete observable action trace for the stimulus. Non-trivial = every op except reset; distinct = distinct (op, observed choice, result) lines."
+        "episodes on the real Daser worker (Daser::start -> Worker::run) with concurrency limit 0..6 and head allowance 0..5 over a chain of 3..N real headers (widths mostly 2, some 1..64; a prefix of the chain two sampling windows old): random store inserts (append, new head after a gap, fills, invalid ones), pruner commands (want_to_prune incl. height 0, highest-prunable and backlog reports around 512), granted and rogue removals, reconnections, and network answers (success / timeout) to arbitrary pending requests in arbitrary order; the result line is the worker's complete observable action trace for the stimulus. Size-threshold episodes (S10, tags big/.., thr/..): concurrency limits 7, 8, 9, 16, 17, 32, 33, 63, 64, 65 (C33 quick: 8, 9, 17, 33, 64, 65; thorough also 10, 15, 31, 127, 128, 129) with head allowance 0/1/2/5 really reached (that many blocks in progress at once, up to 129 started by one stimulus) over chains pre-filled in one range or in many 1..3-block ranges, new heads arriving one by one on top, pruner backlog reports 511/512/513 crossing the threshold in both directions, pruner questions, a disconnect with everything in progress, and the chain drained; long queues of 65/129/513 blocks (thorough 65..1025, contiguous and in many ranges) under limit 1..3; one block each of square widths 3,4,5,7,8,9,15,16,17,31,32,33,63,64,65,127,128,129 (thorough also 2, 255, 256) sampled to the end with timeouts. Non-trivial = every op except reset; distinct = distinct (op, observed choice, result) lines."
     }
     fn gen_ops(&mut self, rng: &mut Rng, tier: Tier, out: &mut Emitter) {
         let cfg = if tier == Tier::Thorough {
-            GenCfg { episodes: 400, max_ops: 160, max_chain: 60, c34_bias: true, ridx_widths: vec![] }
+            GenCfg { episodes: 400, max_ops: 160, max_chain: 60, c34_bias: true, ridx_widths: vec![], thorough: true }
         } else {
-            GenCfg { episodes: 40, max_ops: 80, max_chain: 30, c34_bias: true, ridx_widths: vec![] }
+            GenCfg { episodes: 40, max_ops: 80, max_chain: 30, c34_bias: true, ridx_widths: vec![], thorough: false }
         };
         gen_all(rng, &cfg, out);
     }
